@@ -53,7 +53,10 @@ theorem eff_invSem (s : St) (e : Ev) (hp : pre s e = none) (h : InvSem s) : InvS
     simp only [effSleep]; cases q <;> (simp only []; split <;> simp [setTh])
   case intrNoSleep t st e b => apply invSem_of_sem _ _ h; simp only [effIntrNoSleep]; split <;> simp [setTh]
   case wakeTimeout t => apply invSem_of_sem _ _ h; simp only [effWakeTimeout, dequeue]; split <;> simp [setTh]
-  case wakeIntr t e b => apply invSem_of_sem _ _ h; simp only [effWakeIntr, dequeue]; split <;> simp [setTh]
+  case wakeIntr t e b =>
+    have hw : (wokenState s t e).sem = s.sem := by simp only [wokenState, dequeue]; split <;> simp [setTh]
+    apply invSem_of_sem _ _ h
+    rcases effWakeIntr_form s t e b with hf | hf <;> rw [hf] <;> simp [setTh, hw]
   case mutexTry m ok t => apply invSem_of_sem _ _ h; simp only [effMutexTry]; split <;> rfl
   all_goals exact invSem_of_sem _ _ h (by first | rfl | simp [effCreate, effDie, effCall, effSetShutdown, effResume,
       effYield, effRet, effMutexUnlock, effMutexInit, setTh])
